@@ -133,6 +133,13 @@ Theorem C18_client_calls_are_the_eight : map fst client_calls =
 Proof. exact client_calls_are_the_eight. Qed.
 Print Assumptions C18_client_calls_are_the_eight.
 
+(* Plain data crossing the boundary (index/value pairs, address ranges, unit id, response timeout, retry
+   delays): every Rust-side field or constructor parameter is fed by the C-side field the Spec names
+   (table regenerated from conversions.rs / client.rs, parameter names from types.rs / retry.rs). *)
+Theorem C18_fields : field_forwarding = field_spec.
+Proof. exact fields_forwarded. Qed.
+Print Assumptions C18_fields.
+
 (* non-vacuity *)
 Example C18_once_example :
   let env := {| null_args := []; failing_validation := None; over_limit := false; send := Accepted;
